@@ -132,6 +132,24 @@ Theorem c50_proxy_set_is_view_partial : forall ord s o, wfs s -> ps_covered o = 
 Proof. exact proxy_set_is_view_partial. Qed.
 Print Assumptions c50_proxy_set_is_view_partial.
 
+(* whole-collection assignment obj.proxy = x (_bulk_replace): afterwards the view is the assigned
+   collection, for EVERY old contents and every assigned value (list: case PAssign of
+   c50_proxy_list_is_view_guarded; dict: as a mapping - new values of shared keys included; set: as a set) *)
+Theorem c50_proxy_dict_assign_view : forall s m, wf s ->
+  wf (pd_assign s m) /\
+  forall k, d_get k (to_dict (pd_assign s m)) = d_get k (d_update [] m).
+Proof. exact proxy_dict_assign_view. Qed.
+Print Assumptions c50_proxy_dict_assign_view.
+
+Theorem c50_proxy_set_assign_view : forall s vs, wfs s ->
+  wfs (ps_assign s vs) /\ forall x, In x (to_list (ps_assign s vs)) <-> In x vs.
+Proof. exact proxy_set_assign_view. Qed.
+Print Assumptions c50_proxy_set_assign_view.
+
+Example c50_dict_assign_example :
+  to_dict (pd_assign (pd_setitem (pd_setitem px_empty 0 5) 1 6) [(1, 9); (2, 7)]) = [(1, 9); (2, 7)].
+Proof. vm_compute. reflexivity. Qed.
+
 (* the hypotheses are satisfiable *)
 Example c50_guarded_history_example :
   let ops := [OAppend 7; OInsert 0 8; OSetSlice (mkslice (Some 1) (Some 3) None) [20; 21; 22]; ODelItem (-1);
